@@ -174,7 +174,7 @@ def run(tier, seed, jobs):
     plans = []
     from mc import progfam
     # hand-built family (mc/progfam.py): generated and erased form of every program (quick: the core subset)
-    fam = [(progfam.family_configs(('java',), 'all' if tier == 'thorough' else 'core'), ['first'], 0, 1, False, 40)]
+    fam = [(progfam.family_configs(('java',), 'all' if tier == 'thorough' else 'core'), ['first'], 0, 1, False, 10 if tier == 'quick' else 40)]
     for part in fam + plan(tier):
         configs, policies, bound, nslices, cast = part[:5]
         chunk = part[5] if len(part) > 5 else None
